@@ -2,7 +2,7 @@
    a case is an operation name and a list of generic arguments; the answer is a generic
    output value.  The OCaml driver (eval/driver.ml) only parses / prints these types. *)
 From Coq Require Import String.
-From ArrRs Require Import Base Arr Index Axis Broadcast Lift Split Reduce Sort.
+From ArrRs Require Import Base Arr Index Axis Broadcast Lift Split Reduce Sort Join.
 Open Scope string_scope.
 Open Scope list_scope.
 
@@ -342,8 +342,29 @@ Definition table_sort : list (string * (list arg -> out)) :=
        | [AA s e; AN] => orarr (unique1 Z.ltb Z.eqb (mka s e)) | _ => OBad end)
   ].
 
+(* ---- C11: joining ---- *)
+Definition table_join : list (string * (list arg -> out)) :=
+  [ ("append", fun args => match args with
+       | [AA s1 e1; AA s2 e2; ax] => match optn ax with
+           | Some ax => orarr (append 0%Z (mka s1 e1) (mka s2 e2) ax) | None => OBad end
+       | _ => OBad end)
+  ; ("concatenate", fun args => match args with
+       | [AAs l; ax] => match optn ax with Some ax => orarr (concatenate 0%Z (mkas l) ax) | None => OBad end
+       | _ => OBad end)
+  ; ("stack", fun args => match args with
+       | [AAs l; ax] => match optn ax with Some ax => orarr (stack 0%Z (mkas l) ax) | None => OBad end
+       | _ => OBad end)
+  ; ("vstack", fun args => match args with [AAs l] => orarr (vstack 0%Z (mkas l)) | _ => OBad end)
+  ; ("row_stack", fun args => match args with [AAs l] => orarr (vstack 0%Z (mkas l)) | _ => OBad end)
+  ; ("hstack", fun args => match args with [AAs l] => orarr (hstack_spec 0%Z (mkas l)) | _ => OBad end)
+  ; ("hstack_pinned", fun args => match args with [AAs l] => orarr (hstack_pinned 0%Z (mkas l)) | _ => OBad end)
+  ; ("dstack", fun args => match args with [AAs l] => orarr (dstack 0%Z (mkas l)) | _ => OBad end)
+  ; ("column_stack", fun args => match args with [AAs l] => orarr (column_stack (mkas l)) | _ => OBad end)
+  ].
+
 Definition table : list (string * (list arg -> out)) :=
-  table_index ++ table_axis ++ table_broadcast ++ table_ew2 ++ table_ew1 ++ table_ops ++ table_reduce ++ table_sort.
+  table_index ++ table_axis ++ table_broadcast ++ table_ew2 ++ table_ew1 ++ table_ops ++ table_reduce ++ table_sort
+  ++ table_join.
 
 Fixpoint lookup (name : string) (t : list (string * (list arg -> out))) : option (list arg -> out) :=
   match t with
